@@ -348,3 +348,121 @@ def is_none(node):
 def loc(unit_or_file, node):
     f = unit_or_file.file if hasattr(unit_or_file, 'file') else unit_or_file
     return '%s:%d' % (f, getattr(node, 'lineno', 0))
+
+
+# ---------------------------------------------------------------- tiny evaluator
+class Unknown(object):
+    def __repr__(self):
+        return '?'
+
+
+UNKNOWN = Unknown()
+
+
+def eval_small(e, env):
+    """Evaluate a comparison-style expression over an environment mapping dotted
+    texts to concrete representative values. Returns UNKNOWN when the
+    expression consults anything else.  Used to decide tests that look at a
+    value *only through comparisons with constants* for one representative of
+    each ordering class."""
+    if isinstance(e, ast.Constant):
+        return e.value
+    if isinstance(e, (ast.Call, ast.Subscript)):
+        k = src(e)
+        if k in env:
+            return env[k]
+    d = dotted(e)
+    if d is not None:
+        if d in env:
+            return env[d]
+        return UNKNOWN
+    if isinstance(e, ast.UnaryOp) and isinstance(e.op, ast.Not):
+        v = eval_small(e.operand, env)
+        return UNKNOWN if v is UNKNOWN else (not v)
+    if isinstance(e, ast.UnaryOp) and isinstance(e.op, ast.USub):
+        v = eval_small(e.operand, env)
+        return UNKNOWN if v is UNKNOWN else -v
+    if isinstance(e, ast.BoolOp):
+        vals = [eval_small(v, env) for v in e.values]
+        if isinstance(e.op, ast.And):
+            for v in vals:
+                if v is UNKNOWN:
+                    break
+                if not v:
+                    return v
+            else:
+                return vals[-1]
+            if any(v is not UNKNOWN and not v for v in vals):
+                return False
+            return UNKNOWN
+        for v in vals:
+            if v is UNKNOWN:
+                break
+            if v:
+                return v
+        else:
+            return vals[-1]
+        if any(v is not UNKNOWN and v for v in vals):
+            return True
+        return UNKNOWN
+    if isinstance(e, ast.Compare):
+        left = eval_small(e.left, env)
+        if left is UNKNOWN:
+            return UNKNOWN
+        for op, right in zip(e.ops, e.comparators):
+            r = eval_small(right, env)
+            if r is UNKNOWN:
+                return UNKNOWN
+            try:
+                if isinstance(op, ast.Eq):
+                    ok = left == r
+                elif isinstance(op, ast.NotEq):
+                    ok = left != r
+                elif isinstance(op, ast.Lt):
+                    ok = left < r
+                elif isinstance(op, ast.LtE):
+                    ok = left <= r
+                elif isinstance(op, ast.Gt):
+                    ok = left > r
+                elif isinstance(op, ast.GtE):
+                    ok = left >= r
+                elif isinstance(op, ast.Is):
+                    ok = left is r
+                elif isinstance(op, ast.IsNot):
+                    ok = left is not r
+                elif isinstance(op, ast.In):
+                    ok = left in r
+                elif isinstance(op, ast.NotIn):
+                    ok = left not in r
+                else:
+                    return UNKNOWN
+            except TypeError:
+                return UNKNOWN
+            if not ok:
+                return False
+            left = r
+        return True
+    if isinstance(e, (ast.Tuple, ast.List, ast.Set)):
+        vals = [eval_small(x, env) for x in e.elts]
+        if any(v is UNKNOWN for v in vals):
+            return UNKNOWN
+        return vals
+    if isinstance(e, ast.BinOp) and isinstance(e.op, (ast.FloorDiv, ast.Div, ast.Mod, ast.Sub, ast.Add)):
+        l, r = eval_small(e.left, env), eval_small(e.right, env)
+        if l is UNKNOWN or r is UNKNOWN:
+            return UNKNOWN
+        try:
+            if isinstance(e.op, ast.FloorDiv):
+                return l // r
+            if isinstance(e.op, ast.Div):
+                return l / r
+            if isinstance(e.op, ast.Mod):
+                return l % r
+            if isinstance(e.op, ast.Sub):
+                return l - r
+            return l + r
+        except Exception:
+            return UNKNOWN
+    return UNKNOWN
+
+
